@@ -39,15 +39,7 @@ def main(argv=None):
         os.replace(tmp, a.out)
         return 0
     if a.cmd == "replay":
-        with open(a.path) as f:
-            rec = json.load(f)
-        prop = rec["property"]
-        mod = core.check_module(prop)
-        print(json.dumps(rec["violation"], indent=1)[:4000])
-        if hasattr(mod, "replay"):
-            return mod.replay(rec["violation"]) or 0
-        print("(no executable replay for this check; the record above is the witness)")
-        return 0
+        return core.replay(a.path)
 
 
 if __name__ == "__main__":
